@@ -6,6 +6,21 @@ VERIF = os.path.dirname(os.path.dirname(os.path.abspath(__file__)))
 ALL = ["C%02d" % i for i in range(1, 21)]
 
 CLAIMED = {
+ "C01": dict(
+   technique="TLA+ spec RuleScan.tla (first-match reference semantics Decide + lowered match-set array + userspace scan machine) model-checked with TLC; TLC-generated programs rendered to dae config text and replayed through parser, config.New, builder and ControlPlane.Route",
+   text="TLC enumerates routing programs (every single-condition rule over the full value universe of the ten condition functions, every 2-rule and 2-condition program over a reduced universe, deeper programs by simulation) and checks in every state that the sentinel scan over the lowered match-set array refines the first-match semantics for every packet of the program's boundary packet set. Every generated program is compiled from configuration text by the production pipeline and ControlPlane.Route is compared, packet by packet, with the specification's decision (outbound, mark, must).",
+   note="Trusted: TLC; the spec's reading of the documented condition meanings. Bounded: value universes listed in RuleScan.tla (boundary ports, prefix lengths, both families, 16-byte process names, empty domain / process name / zero MAC); geodata expansion not exercised.",
+   design="§3 C01"),
+ "C04": dict(
+   technique="TLA+ spec RuleScan.tla: optimiser pipeline transcribed as operators (SortAnd, MergeAdjacent, Dedup) with invariant Decide(Optimize(p)) = Decide(p) checked by TLC; generated programs replayed through the production optimiser pipeline",
+   text="TLC proves within bounds that each modelled rewrite preserves the first-match meaning (it found the negated-neighbour merge defect, repaired by a fix: commit) and every generated program is compiled with the production optimisers (Alias, DatReader, MergeAndSort, DeduplicateParams) and its decisions compared with the meaning of the rules as the user wrote them.",
+   note="Trusted: TLC. Bounded as C01. Traffic routing pipeline; the DNS request/response pipelines share the optimisers and are exercised under C07.",
+   design="§3 C04"),
+ "C11": dict(
+   technique="TLA+ spec DomainMatch.tla/DomainOps.tla (reference meaning of full/suffix/keyword/regex + reversed sentinel-trie encoding) model-checked with TLC; enumerated pattern sets x names replayed on AhocorasickSlimtrie with sets packed at many bit indices",
+   text="TLC enumerates every singleton and ordered pair of patterns over a 53-pattern universe for each kind plus structured regexes and random label-sharing sets, checks that the trie/AC encoding refines the reference meaning for every name (all strings of length <=3 over {a,b,1,-,_,.} plus longer, upper-case and trailing-dot names), and emits the expected answer per (set, name). The harness packs 64 sets at a time into one real matcher at seed-chosen bit indices (incl. word boundaries) and compares MatchDomainBitmap bit by bit.",
+   note="Trusted: TLC. Bounded alphabet/lengths; regex restricted to (^)?(lit|lit)($)?; geosite-scale sets are approximated by random sets of <=24 patterns (thorough).",
+   design="§3 C11"),
  "C12": dict(
    technique="TLA+ spec Cidr.tla (reference CIDR semantics + trie-key / LPM-key implementation layer) model-checked with TLC; TLC-enumerated vectors replayed on trie, production LPM key encoder, real kernel LPM trie and dip()/sip() rule programs",
    text="TLC enumerates every address set (all subsets up to the bound of a boundary-prefix universe, plus Randomization-drawn sets over all prefix lengths) and checks that the bit-string trie model and the LPM key model refine CIDR containment for every spec-defined probe (first/last inside, neighbours outside). Every enumerated set is then executed on the real code (userspace trie, cidrToBpfLpmKey bytes vs spec LpmKey, a real kernel BPF LPM trie, and compiled dip()/sip() programs) with the spec's expected answer as oracle.",
